@@ -187,3 +187,21 @@ Proof. split; reflexivity. Qed.
 (* --- round 4: construction (options, Config.NewRedis, getRedis, blocking nodes, kv.New) --- *)
 Lemma link_construction_table : C12_Table.construction_table = construction_spec.
 Proof. reflexivity. Qed.
+
+(* the blocking node's client gets the instance's TLS setting: the tlsConfig built from r.tls reaches BOTH option
+   literals of CreateBlockingNode (node and cluster branch) *)
+Definition has (sub s : string) : bool := match String.index 0 sub s with Some _ => true | None => false end.
+
+Definition blocking_tls_ok (rows : list (string * list string)) : bool :=
+  match find (fun r => String.eqb (fst r) "CreateBlockingNode") rows with
+  | Some (_, body) =>
+      existsb (String.eqb "if p0.tls { tlsConfig = & tls.Config { InsecureSkipVerify : true } ; }") body &&
+      existsb (fun st => has "red.NewClient ( & red.Options { Addr : p0.Addr , Password : p0.Pass ," st &&
+                         has "ReadTimeout : timeout , TLSConfig : tlsConfig , } ) ; return & clientBridge { client }" st &&
+                         has "red.NewClusterClient ( & red.ClusterOptions { Addrs : [ ] string { p0.Addr } , Password : p0.Pass ," st &&
+                         has "ReadTimeout : timeout , TLSConfig : tlsConfig , } ) ; return & clusterBridge { client }" st) body
+  | None => false
+  end.
+
+Lemma link_blocking_tls : blocking_tls_ok C12_Table.construction_table = true.
+Proof. vm_compute. reflexivity. Qed.
